@@ -603,12 +603,26 @@ func (st *verifC13State) shapes() string {
 // barrier waits until every background writer that was started is parked in PutB (or has left it
 // and released its throttle slot).
 func (st *verifC13State) barrier() bool {
+	var leakSince time.Time
 	for {
 		st.kc.mtx.Lock()
 		n, infl := len(st.kc.parked), st.kc.inflight
 		st.kc.mtx.Unlock()
-		if t := len(st.cfs.thr.c); n == t && infl == n {
+		t := len(st.cfs.thr.c)
+		if n == t && infl == n {
 			return true
+		}
+		if infl == n && t > n {
+			// every PutB that is not parked has returned, yet more throttle slots are taken than
+			// background writes are in flight: if that persists a slot was not given back
+			if leakSince.IsZero() {
+				leakSince = time.Now()
+			} else if time.Since(leakSince) > 4*time.Second {
+				st.flags = append(st.flags, fmt.Sprintf("throttle-leak=%d", t-n))
+				return false
+			}
+		} else {
+			leakSince = time.Time{}
 		}
 		if time.Now().After(st.deadline) {
 			return false
@@ -821,7 +835,7 @@ func verifC13Det(max int, evs []string) string {
 		return "load=err"
 	}
 	defer restore()
-	st.deadline = time.Now().Add(60 * time.Second)
+	st.deadline = time.Now().Add(40 * time.Second)
 	handles := map[string]*filehandle{} // used by one worker at a time (token passing)
 	workers := map[string]chan verifC13Req{}
 	defer func() {
@@ -866,7 +880,13 @@ func verifC13Det(max int, evs []string) string {
 	var res []string
 	last := ""
 	dead := func(i int) string {
-		return strings.Join(append(res, fmt.Sprintf("DEADLOCK at event %d (%s)", i, strings.Join(st.flags, ","))), ";")
+		what := "DEADLOCK"
+		for _, f := range st.flags {
+			if strings.HasPrefix(f, "throttle-leak") {
+				what = "THROTTLE-LEAK"
+			}
+		}
+		return strings.Join(append(res, fmt.Sprintf("%s at event %d (%s)", what, i, strings.Join(st.flags, ","))), ";")
 	}
 	for i, ev := range evs {
 		var head string
@@ -1054,7 +1074,7 @@ func verifC13Free(max, thr int, seed int64, failpct int, streams []string) strin
 	go func() { wg.Wait(); close(done) }()
 	select {
 	case <-done:
-	case <-time.After(90 * time.Second):
+	case <-time.After(45 * time.Second):
 		buf := make([]byte, 1<<16)
 		n := runtime.Stack(buf, true)
 		stacks := strings.Join(strings.Fields(string(buf[:n])), " ")
@@ -1072,7 +1092,7 @@ func verifC13Free(max, thr int, seed int64, failpct int, streams []string) strin
 	st.kc.failpct = 0
 	maxput := st.kc.maxInfl
 	st.kc.mtx.Unlock()
-	st.deadline = time.Now().Add(60 * time.Second)
+	st.deadline = time.Now().Add(20 * time.Second)
 	for {
 		st.kc.mtx.Lock()
 		infl := st.kc.inflight
@@ -1081,6 +1101,9 @@ func verifC13Free(max, thr int, seed int64, failpct int, streams []string) strin
 			break
 		}
 		if time.Now().After(st.deadline) {
+			if infl == 0 {
+				return fmt.Sprintf("THROTTLE-LEAK %d slots still taken with no background write in flight", len(st.cfs.thr.c))
+			}
 			return "DEADLOCK background writers did not finish"
 		}
 		time.Sleep(100 * time.Microsecond)
